@@ -169,7 +169,7 @@ func Verif_C09_ArchScripts() {
 	var body [6][]byte
 	var set [6]bool
 	any := false
-	nlen := v.Bound("C09.len", 2, 4) + 1
+	nlen := v.Bound("C09.len", 2, 6) + 1
 	base := v.NondetChoice("script.len", nlen)
 	for i, slot := range verifArchSlots {
 		set[i] = v.NondetBool("has." + slot)
